@@ -76,3 +76,15 @@ PROPS["C18"] = dict(
             "the accuracy clauses (two ulps, monotone, round-trip <= |t|*2^-22 + 1 ns) concern binary32 rounding and are tested "
             "bit-for-bit against Lean's Float32, not proved.",
 )
+
+PROPS["C09"] = dict(
+    gen=cases.gen_C09,
+    oracle=cases.oracle_C09,
+    mask={"time", "cat", "unit", "float"},
+    rule="breadth-first search over every reachable matching of 2..5 terminals (thorough: 6) x every connect(i,j), i!=j, and "
+         "disconnect(i), each preceded by random state/command writes and followed by all three reads on all terminals; random longer "
+         "sequences on up to 6 (8) terminals; all own/partner presence combinations x timestamp orders incl. ties for the reads; "
+         "regression cases for the repaired connect-twice panic",
+    trusted_base=COMMON_TB + ["RefCell borrow semantics are modelled (self-link / same-cell double borrow = Panic.borrow), not verified"],
+    assumptions=COMMON_AS,
+)
